@@ -75,3 +75,10 @@ func VerifC13_NestedFirstUseRel()   { VerifC03_NestedFirstUseRel() }
 
 // C01 / C16: whole-table reset after growth
 func VerifC01_TableResetAfterGrowth() { VerifC11_TableResetAfterGrowth() }
+
+// C06 / C11: the bulk-move kernel (AddAll / CopyToEnd with pointer-bearing columns into a
+// destination that already holds rows) and the swap-remove kernel
+func VerifC06_TableAddAll() { VerifC01_TableAddAll() }
+func VerifC11_TableAddAll() { VerifC01_TableAddAll() }
+func VerifC11_TableRemove() { VerifC01_TableRemove() }
+func VerifC11_TableAdd()    { VerifC01_TableAdd() }
